@@ -639,14 +639,25 @@ func newStress() *stressWorld {
 	return s
 }
 
-func stress(rep *vh.Report, rng *vh.Rng, rounds, per int) {
+// stress: hold = true keeps every goroutine started by compiled code alive until all of the round have finished
+// their interpreted calls (then none of them can receive the identity of an exited one while the round runs, and
+// the next round starts after wg.Wait(), i.e. ordered after every exit).  Used in the -race build: the record a
+// compiled-code goroutine leaves registered (observation C33-stale-foreign-record, part D) is otherwise found by an
+// unrelated later goroutine with the reused identity, which the race detector reports; that input class is
+// replayed separately by churn().
+func stress(rep *vh.Report, wd *vh.Watchdog, rng *vh.Rng, rounds, per int, hold bool) {
 	s := newStress()
 	tasks := 0
 	for r := 0; r < rounds; r++ {
+		wd.Beat(fmt.Sprint("stress round ", r))
 		procs := []int{1, 2, 4, 8}[r%4]
 		runtime.GOMAXPROCS(procs)
 		s.yield = r%2 == 1
-		var wg sync.WaitGroup
+		var wg, fin sync.WaitGroup
+		release := make(chan struct{})
+		if !hold {
+			close(release)
+		}
 		var wrong int64
 		nfan := per / 2
 		out := make(chan int, nfan)
@@ -659,19 +670,25 @@ func stress(rep *vh.Report, rng *vh.Rng, rounds, per int) {
 				for j := range xs {
 					xs[j] = rng.Intn(100)
 				}
+				fin.Add(1)
 				go func() {
 					defer wg.Done()
 					s.srtFn(xs)
 					if !sort.IntsAreSorted(xs) {
 						atomic.AddInt64(&wrong, 1)
 					}
+					fin.Done()
+					<-release
 				}()
 			} else {
+				fin.Add(1)
 				go func() {
 					defer wg.Done()
 					if s.workFn(k) != k*k+k {
 						atomic.AddInt64(&wrong, 1)
 					}
+					fin.Done()
+					<-release
 				}()
 			}
 		}
@@ -683,6 +700,10 @@ func stress(rep *vh.Report, rng *vh.Rng, rounds, per int) {
 			if v/1000 != k*k+k {
 				atomic.AddInt64(&wrong, 1)
 			}
+		}
+		fin.Wait()
+		if hold {
+			close(release)
 		}
 		wg.Wait()
 		tasks += per
@@ -793,10 +814,13 @@ func partD(rep *vh.Report) {
 }
 
 // ---------------------------------------------------------------- main
-func reexecWithRaceLog(a *vh.Args) {
-	logp := a.Path("race")
+func raceChild(a *vh.Args, mode, logp string) (error, []string) {
+	old, _ := filepath.Glob(logp + ".*")
+	for _, f := range old {
+		os.Remove(f)
+	}
 	c := exec.Command(os.Args[0], os.Args[1:]...)
-	c.Env = append(os.Environ(), "C33_CHILD=1", "GORACE=log_path="+logp+" halt_on_error=0 exitcode=0")
+	c.Env = append(os.Environ(), "C33_CHILD="+mode, "GORACE=log_path="+logp+" halt_on_error=0 exitcode=0")
 	c.Stdout, c.Stderr = os.Stdout, os.Stderr
 	err := c.Run()
 	files, _ := filepath.Glob(logp + ".*")
@@ -809,23 +833,62 @@ func reexecWithRaceLog(a *vh.Args) {
 			}
 		}
 	}
-	if len(reports) > 0 {
-		rp := a.Path("report.json")
-		var m map[string]interface{}
-		if b, e := os.ReadFile(rp); e == nil && json.Unmarshal(b, &m) == nil {
-			fl, _ := m["failures"].([]interface{})
-			txt := reports[0]
+	return err, reports
+}
+
+// churn replays, in a process of its own, the input class the -race stress avoids: goroutines started by compiled
+// code call interpreted functions and exit with no synchronisation towards the goroutines started after them
+func churn() {
+	s := newStress()
+	for r := 0; r < 4; r++ {
+		var wg sync.WaitGroup
+		for i := 0; i < 150; i++ {
+			wg.Add(1)
+			go func(k int) { defer wg.Done(); s.workFn(k % 7) }(i)
+			if i%3 == 0 {
+				runtime.Gosched()
+			}
+		}
+		wg.Wait()
+	}
+}
+
+func reexecWithRaceLog(a *vh.Args) {
+	err, reports := raceChild(a, "1", a.Path("race"))
+	errc, churnReports := raceChild(a, "churn", a.Path("race_churn"))
+	rp := a.Path("report.json")
+	var m map[string]interface{}
+	if b, e := os.ReadFile(rp); e == nil && json.Unmarshal(b, &m) == nil {
+		fl, _ := m["failures"].([]interface{})
+		first := func(r []string) string {
+			txt := r[0]
 			if len(txt) > 3000 {
 				txt = txt[:3000]
 			}
-			fl = append(fl, map[string]interface{}{"key": "race-detector", "what": fmt.Sprintf("%d data race report(s) from the Go race detector", len(reports)), "input": "see got", "got": txt})
-			m["failures"] = fl
-			b, _ := json.MarshalIndent(m, "", " ")
-			os.WriteFile(rp, b, 0o644)
+			return txt
 		}
+		if len(reports) > 0 {
+			fl = append(fl, map[string]interface{}{"key": "race-detector", "what": fmt.Sprintf("%d data race report(s) from the Go race detector", len(reports)), "input": "see got", "got": first(reports)})
+		}
+		ex, _ := m["extra"].(map[string]interface{})
+		if ex == nil {
+			ex = map[string]interface{}{}
+		}
+		ex["race_reports_main"] = len(reports)
+		ex["race_reports_churn_replay"] = len(churnReports)
+		if len(churnReports) > 0 {
+			ex["race_report_churn_first"] = first(churnReports)
+			if knownKeys()[keyStale] {
+				fl = append(fl, map[string]interface{}{"key": keyStale, "what": fmt.Sprintf("%d data race report(s): a goroutine started by compiled code uses the record left registered by an exited one with the same identity", len(churnReports)), "input": "churn(): go func(){ work(k) }() x150 x4 without synchronisation between exits and starts", "got": first(churnReports)})
+			}
+		}
+		m["extra"] = ex
+		m["failures"] = fl
+		b, _ := json.MarshalIndent(m, "", " ")
+		os.WriteFile(rp, b, 0o644)
 	}
-	if err != nil {
-		fmt.Println("child:", err)
+	if err != nil || errc != nil {
+		fmt.Println("child:", err, errc)
 		os.Exit(1)
 	}
 	os.Exit(0)
@@ -836,14 +899,25 @@ func main() {
 	if raceEnabled && os.Getenv("C33_CHILD") == "" {
 		reexecWithRaceLog(a)
 	}
+	if os.Getenv("C33_CHILD") == "churn" {
+		churn()
+		return
+	}
 	rng := vh.NewRng(a.Seed)
 	rep := vh.NewReport(a, "part A: rounds of 2..64 simultaneously live goroutines checking gls.GoID() constant (after Gosched, channel receive, Sleep, deep recursion, LockOSThread) and pairwise distinct; "+
 		"part B: PRNG-dictated schedules (8..40 events: call, return, go statement with named function or with function literal, make closure, call closure made by another goroutine, foreign goroutine start/exit) over <= 6 live goroutines, "+
 		"registry snapshot after every event compared with the model, ownership/sharing/stability oracles on every frame allocation; a schedule is non-trivial when >= 2 goroutines besides the creator ran interpreted frames; distinct by SHA-256 of the event list; "+
 		"part C: stress rounds (GOMAXPROCS 1,2,4,8; yields injected in odd rounds) of goroutines from go statements and compiled code (incl. sort.Slice callbacks) with the ownership probe at every interpreted call")
-	wd := vh.NewWatchdog(rep, 60*time.Second)
+	limit := 60 * time.Second
+	if raceEnabled {
+		limit = 300 * time.Second
+	}
+	wd := vh.NewWatchdog(rep, limit)
+	phase := map[string]float64{}
+	t0 := time.Now()
+	lap := func(name string) { phase[name] = time.Since(t0).Seconds(); t0 = time.Now() }
 
-	nA, nB, nC, perC := 40, 160, 8, 300
+	nA, nB, nC, perC := 40, 64, 4, 200 // quick: about 15 s on an idle machine; the volume is in the thorough tier
 	if a.Thorough() {
 		nA, nB, nC, perC = 400, 4000, 40, 2000
 	}
@@ -855,8 +929,9 @@ func main() {
 	}
 	wd.Beat("partA")
 	partA(rep, rng.Fork(), nA)
+	lap("partA")
 
-	cw := vh.NewCases(a, "From Coq Require Import List ZArith.\nFrom Verif Require Import C33.Model.\nImport ListNotations.", "case", "mismatches", 60)
+	cw := vh.NewCases(a, "From Coq Require Import List ZArith.\nFrom Verif Require Import C33.Model.\nImport ListNotations.", "case", "mismatches", 16)
 	rb := rng.Fork()
 	reuseCases := 0
 	for idx := 0; idx < nB; idx++ {
@@ -894,10 +969,14 @@ func main() {
 	cw.Close()
 	rep.Extra["schedules_with_identity_reuse"] = reuseCases
 	runtime.GOMAXPROCS(runtime.NumCPU())
+	lap("partB")
 
 	wd.Beat("stress")
-	stress(rep, rng.Fork(), nC, perC)
+	stress(rep, wd, rng.Fork(), nC, perC, raceEnabled)
+	lap("stress")
 	wd.Beat("partD")
 	partD(rep)
+	lap("partD")
+	rep.Extra["phase_seconds"] = phase
 	rep.Write()
 }
